@@ -252,6 +252,22 @@ def check_arb(r):
         return np.zeros(len(time))
 
     kw = {"a": r.uniform(-1, 1), "freq": r.randint(1, 5), "label": "x"}
+    form = r.randrange(4)
+    if form == 1:
+        # a user function whose own keywords happen to be called SR / npts (a slew rate, a number of pulses)
+        def rec(time, SR=2e5, npts=None, start=0.0):      # noqa: F811
+            seen["time"] = np.array(time)
+            seen["kw"] = {"SR": SR, "npts": npts, "start": start}
+            return np.zeros(len(time))
+        kw = {"SR": r.choice([2e5, 7.5]), "npts": r.choice([3, None]), "start": -0.25}
+    elif form == 2:
+        def rec(time, npts=None, **rest):                 # noqa: F811
+            seen["time"] = np.array(time)
+            seen["kw"] = {"npts": npts, **rest}
+            return np.zeros(len(time))
+        kw = {"npts": None, "time_unit": "s"}
+    elif form == 3:
+        kw = {}
     out = PA.arb_func(rec, dict(kw), SR, n)
     if len(out) != n:
         return f"arb_func returned {len(out)} points, {n} requested"
@@ -280,6 +296,20 @@ def direct(seed, tier, model, stats):
                           "how_to_replay": f"PulseAtoms.{name}(*{args!r}, {SR!r}, {n})"})
             if len(fails) >= 3:
                 break
+    # long waveforms at high rates: the error of the sine must not grow with the sample index (reference: the phase
+    # 2*pi*f*k/SR reduced modulo one turn in integer arithmetic before it is converted to floating point)
+    for SRl, fl, nl in ((50_000_000_000, 7_300_000_000, 300_000), (25_000_000_000, 12_499_999_999, 200_000)) if tier == "quick" else \
+            ((50_000_000_000, 7_300_000_000, 2_000_000), (25_000_000_000, 12_499_999_999, 1_000_000), (1_000_000_000, 333_333_333, 1_000_000)):
+        ph = r.uniform(-3, 3)
+        turns = np.array([(fl * k) % SRl for k in range(0, nl)], dtype=float) / SRl
+        ref = 1.5 * np.sin(2 * np.pi * turns + ph) + 0.25
+        out = np.asarray(PA.sine(fl, 1.5, 0.25, ph, SRl, nl), dtype=float)
+        tested["closed_form"] += 1
+        if out.shape != ref.shape or float(np.max(np.abs(out - ref))) > 2e-8:
+            i = int(np.argmax(np.abs(out - ref))) if out.shape == ref.shape else -1
+            fails.append({"what": f"sine of {nl} points at {SRl} Sa/s, {fl} Hz: sample {i} deviates from ampl*sin(2*pi*f*k/SR+phase)+off by "
+                                  f"{float(np.max(np.abs(out - ref))) if out.shape == ref.shape else 'shape'} (tolerance 2e-8)",
+                          "call": {"shape": "sine", "args": [fl, 1.5, 0.25, ph], "SR": SRl, "npts": nl}})
     for _ in range(60 if tier == "quick" else 1000):
         d = check_calls(r)
         tested["calls"] += 1
